@@ -30,6 +30,8 @@ CLASS_SPECS = [
     dict(cls='z', slug='z', abstract=True),
     dict(cls='w', slug='g:a', params=[dict(name='x', name_in_config='xw', default=0, dtype=int)], run_params=['x']),
     dict(cls='bsub', slug='bsub', base='b', inputs=[dict(ref='a', how='name')], pulls=['a']),
+    dict(cls='both', slug='both', inputs=[dict(ref='g:a', how='name'), dict(ref='a', how='name')]),
+    dict(cls='both2', slug='both2', inputs=[dict(ref='a', how='name'), dict(ref='g:a', how='name')]),
 ]
 CLSNAME = {s['cls']: 'R' + s['cls'].capitalize() + 'Task' for s in CLASS_SPECS}
 
@@ -58,7 +60,8 @@ def menus(tier):
     root_uses = [[]] + [[u] for u in targets] + [[u, v] for u in targets for v in targets]
     root_tasks = [[], ['trainx'], ['a']]
     p1 = []
-    for tasks in (['a', 'b'], ['a', 'b', 'z'], ['a', 'c'], ['b'], ['a', 'w', 'pat'], ['cy1', 'cy2'], ['a', 'b', 'bsub']):
+    for tasks in (['a', 'b'], ['a', 'b', 'z'], ['a', 'c'], ['b'], ['a', 'w', 'pat'], ['cy1', 'cy2'], ['a', 'b', 'bsub'],
+                  ['a', 'w', 'both', 'both2'], ['a', 'both']):
         for vals in ({}, {'x': 1}):
             for uses in ([], [U('P2')], [U('P2', 'n')]):
                 if tasks in (['b'], ['cy1', 'cy2']) and vals:
